@@ -42,11 +42,16 @@ func VerifC18Graph() {
 	af.Scope = fileScope
 	inner := ast.NewScope(fileScope)
 	extra := &ast.Object{Kind: ast.Pkg, Name: "extra"}
-	switch vfChoice("extraDecl", 3) {
+	// a declaring node that is not part of the tree (the parser synthesises an AssignStmt as the Decl of
+	// range-loop variables)
+	detached := &ast.AssignStmt{Lhs: []ast.Expr{&ast.Ident{Name: "k"}}, Tok: token.DEFINE, Rhs: []ast.Expr{&ast.Ident{Name: "m"}}}
+	switch vfChoice("extraDecl", 4) {
 	case 1:
 		extra.Decl = inner
 	case 2:
 		extra.Decl = aVSpec
+	case 3:
+		extra.Decl = detached
 	}
 	switch vfChoice("extraData", 4) {
 	case 1:
@@ -159,6 +164,25 @@ func VerifC18Graph() {
 	vfAssert(rObjF != nil, "restore/objects")
 	if rObjF != nil {
 		vfAssert(rObjF.Decl == ast.Node(res.Ast.Nodes[d.Dst.Nodes[aFDecl]]), "restore/decl-link")
+	}
+	if rExtra := res.Ast.Objects[dExtra]; rExtra != nil {
+		switch extra.Decl.(type) {
+		case *ast.Scope:
+			_, isScope := rExtra.Decl.(*ast.Scope)
+			vfAssert(isScope, "restore/extra-decl-kind")
+		case *ast.AssignStmt:
+			as, ok := rExtra.Decl.(*ast.AssignStmt)
+			vfAssert(ok && as != nil, "restore/detached-decl-restored")
+			if ok && as != nil {
+				vfAssert(len(as.Lhs) == 1 && as.Lhs[0].(*ast.Ident).Name == "k", "restore/detached-decl-restored")
+			}
+		case ast.Node:
+			vfAssert(rExtra.Decl != nil, "restore/extra-decl-kind")
+		case nil:
+			vfAssert(rExtra.Decl == nil, "restore/extra-decl-kind")
+		}
+	} else {
+		vfAssert(false, "restore/extra-object-restored")
 	}
 	rObjV := res.Ast.Objects[dObjV]
 	if rObjV != nil {
